@@ -51,7 +51,8 @@ type env struct {
 	c       *lib.Chain
 	r       *lib.Rand
 	rep     *lib.Report
-	chans   []string       // local channel ids: channel-0, channel-1
+	chans   []string       // local channel ids of model channels 0 and 1: channel-11, channel-1
+	chanNum []int
 	alias   [2]tok.Token   // model token ids 0,1 ; voucher alias of channel t
 	vAlias  [2]string      // voucher denoms
 	own     [2]tok.Token   // model token ids 10,11 ; Base = the voucher denom of channel t
@@ -72,6 +73,7 @@ type opT struct {
 	Amt    int64  `json:"amt"`
 	Seq    uint64 `json:"seq"`
 	OK     bool   `json:"ok"`
+	AckKind string `json:"ack_kind,omitempty"` // "" = standard; "errempty" = error acknowledgement with empty text {"error":""}; "result0" = result acknowledgement with payload 0x00
 	// recv
 	Src      int    `json:"src"`
 	Sender   int    `json:"sender"`
@@ -129,9 +131,18 @@ func (e *env) setup(seed int64) {
 	e.c = c
 	lib.Must(c.NextBlock())
 	ctx := c.Ctx
+	// two channels whose ids are decimal-prefix related, with send sequences chosen so that the k-th packet of one and
+	// the k-th packet of the other read the same when channel id and sequence are written next to each other
+	// (channel-11 / k  vs  channel-1 / 1k): a relation key that is not injective shows up
+	c.App.IBCKeeper.ChannelKeeper.SetNextChannelSequence(ctx, 11)
 	_, ch0 := tok.Channel(c, ctx, 1)
-	_, ch1 := tok.Channel(c, ctx, 5)
+	c.App.IBCKeeper.ChannelKeeper.SetNextChannelSequence(ctx, 1)
+	_, ch1 := tok.Channel(c, ctx, 11)
+	if ch0 != "channel-11" || ch1 != "channel-1" {
+		panic("unexpected channel ids " + ch0 + " " + ch1)
+	}
 	e.chans = []string{ch0, ch1}
+	e.chanNum = []int{11, 1}
 	for t := 0; t < 2; t++ {
 		e.vAlias[t] = tok.VoucherDenom(c, ctx, port, e.chans[t], fmt.Sprintf("ua%d", t))
 		e.alias[t] = tok.AddToken(c, ctx, "eth", t, true, e.vAlias[t])
@@ -227,12 +238,24 @@ func (e *env) corpusFiles() [][]opT {
 
 func (e *env) corpus() [][]opT {
 	return append(e.corpusFiles(), [][]opT{
+		// an EVM-started transfer in flight on channel-11 (seq 1) and a plain one on channel-1 (seq 11): "channel-11"+"1" vs
+		// "channel-1"+"11"; the plain one times out first, then the EVM one — each must be refunded in its own form
+		{{Kind: "sendevm", Chan: 0, User: 0, Denom: "alias0", Amt: 90}, {Kind: "sendplain", Chan: 1, User: 1, Denom: "alias1", Amt: 40},
+			{Kind: "timeout", Chan: 1, Seq: 11}, {Kind: "timeout", Chan: 0, Seq: 1}},
+		{{Kind: "sendplain", Chan: 0, User: 2, Denom: "alias0", Amt: 35}, {Kind: "sendevm", Chan: 1, User: 1, Denom: "alias1", Amt: 60},
+			{Kind: "sendevm", Chan: 0, User: 0, Denom: "alias0", Amt: 25}, {Kind: "sendplain", Chan: 1, User: 2, Denom: "own11", Amt: 15},
+			{Kind: "ack", Chan: 0, Seq: 1, OK: false}, {Kind: "ack", Chan: 1, Seq: 12, OK: false, AckKind: "errempty"},
+			{Kind: "ack", Chan: 1, Seq: 11, OK: true}, {Kind: "timeout", Chan: 0, Seq: 2}},
+		// acknowledgement kinds: error acknowledgement with empty text (refund as ERC-20, record removed), result with payload 0
+		{{Kind: "sendevm", Chan: 0, User: 1, Denom: "alias0", Amt: 77}, {Kind: "ack", Chan: 0, Seq: 1, OK: false, AckKind: "errempty"},
+			{Kind: "sendevm", Chan: 0, User: 1, Denom: "alias0", Amt: 33}, {Kind: "ack", Chan: 0, Seq: 2, OK: true, AckKind: "result0"},
+			{Kind: "sendplain", Chan: 0, User: 1, Denom: "alias0", Amt: 12}, {Kind: "ack", Chan: 0, Seq: 3, OK: false, AckKind: "errempty"}},
 		// success acknowledgement on the other channel, then a replayed failure acknowledgement
-		{{Kind: "sendevm", Chan: 1, User: 2, Denom: "alias1", Amt: 120}, {Kind: "ack", Chan: 1, Seq: 5, OK: true},
-			{Kind: "ack", Chan: 1, Seq: 5, OK: true}, {Kind: "ackraw", Chan: 1, Seq: 5, OK: false}, {Kind: "timeoutraw", Chan: 1, Seq: 5}},
+		{{Kind: "sendevm", Chan: 1, User: 2, Denom: "alias1", Amt: 120}, {Kind: "ack", Chan: 1, Seq: 11, OK: true},
+			{Kind: "ack", Chan: 1, Seq: 11, OK: true}, {Kind: "ackraw", Chan: 1, Seq: 11, OK: false}, {Kind: "timeoutraw", Chan: 1, Seq: 11}},
 		// error ack, pair disabled at refund time, then enabled
-		{{Kind: "sendevm", Chan: 1, User: 1, Denom: "alias1", Amt: 70}, {Kind: "toggle", Denom: "alias1"}, {Kind: "ack", Chan: 1, Seq: 5, OK: false},
-			{Kind: "toggle", Denom: "alias1"}, {Kind: "ack", Chan: 1, Seq: 5, OK: false}, {Kind: "ack", Chan: 1, Seq: 5, OK: false}},
+		{{Kind: "sendevm", Chan: 1, User: 1, Denom: "alias1", Amt: 70}, {Kind: "toggle", Denom: "alias1"}, {Kind: "ack", Chan: 1, Seq: 11, OK: false},
+			{Kind: "toggle", Denom: "alias1"}, {Kind: "ack", Chan: 1, Seq: 11, OK: false}, {Kind: "ack", Chan: 1, Seq: 11, OK: false}},
 		// inbound shapes
 		{{Kind: "recv", Chan: 0, Src: 7, Sender: 0, RawDenom: "uo0", Denom: "own10", Amt: 50, Receiver: "hex", User: 2, Memo: "none"},
 			{Kind: "recv", Chan: 0, Src: 7, Sender: 0, RawDenom: "uo0", Denom: "own10", Amt: 50, Receiver: "bech32", User: 2, Memo: "none"},
@@ -258,7 +281,7 @@ func (e *env) gen(avoidKnown bool) []opT {
 	r := e.r
 	n := 12 + r.Intn(19)
 	var ops []opT
-	next := []uint64{1, 5}
+	next := []uint64{1, 11}
 	type fl struct {
 		ch  int
 		seq uint64
@@ -277,7 +300,11 @@ func (e *env) gen(avoidKnown bool) []opT {
 			case 1:
 				o.Denom = fmt.Sprintf("own1%d", ch)
 			case 2:
-				o.Denom = fmt.Sprintf("alias%d", 1-ch) // no voucher alias for this channel
+				// no voucher alias for this channel. Only from channel-11: BaseDenomToBridgeDenom matches the alias by
+				// strings.HasPrefix(trace path, "transfer/channel-N"), so over channel-1 the channel-11 voucher would be taken
+				if ch == 0 {
+					o.Denom = "alias1"
+				}
 			case 3:
 				o.Amt = 3500 // more than the user holds
 			}
@@ -333,10 +360,18 @@ func (e *env) gen(avoidKnown bool) []opT {
 				if avoidKnown && f.evm {
 					ops = append(ops, opT{Kind: "timeout", Chan: f.ch, Seq: f.seq})
 				} else {
-					ops = append(ops, opT{Kind: "ack", Chan: f.ch, Seq: f.seq, OK: true})
+					a := opT{Kind: "ack", Chan: f.ch, Seq: f.seq, OK: true}
+					if r.Chance(30) {
+						a.AckKind = "result0"
+					}
+					ops = append(ops, a)
 				}
 			case 1:
-				ops = append(ops, opT{Kind: "ack", Chan: f.ch, Seq: f.seq, OK: false})
+				a := opT{Kind: "ack", Chan: f.ch, Seq: f.seq, OK: false}
+				if r.Chance(40) {
+					a.AckKind = "errempty"
+				}
+				ops = append(ops, a)
 			default:
 				ops = append(ops, opT{Kind: "timeout", Chan: f.ch, Seq: f.seq})
 			}
@@ -463,15 +498,35 @@ func (e *env) snapshot(ctx sdk.Context) string {
 	return lib.List(items)
 }
 
-func (e *env) relations(ctx sdk.Context) (string, map[string]bool) {
+// relations lists, as (model channel, sequence), the sent packets whose tracking record exists — looked up with the
+// real key function — plus (-1, n) if the store holds n records belonging to no packet of this history.
+func (e *env) relations(ctx sdk.Context, sent map[string]*sentPk) (string, map[string]bool) {
+	store := ctx.KVStore(e.c.App.GetKey(erc20types.StoreKey))
 	var items []string
 	set := map[string]bool{}
+	keys := map[string]bool{}
+	var ids []string
+	for id := range sent {
+		ids = append(ids, id)
+	}
+	sort.Strings(ids)
+	for _, id := range ids {
+		sp := sent[id]
+		k := erc20types.GetIBCTransferKey(e.chans[sp.ch], sp.seq)
+		if store.Has(k) {
+			set[id] = true
+			keys[string(k)] = true
+			items = append(items, lib.Pair(lib.Z(int64(sp.ch)), lib.ZU(sp.seq)))
+		}
+	}
+	extra := 0
 	for _, kv := range e.c.DumpPrefix(ctx, erc20types.StoreKey, erc20types.KeyPrefixIBCTransfer) {
-		s := string(kv.K[1:]) // channel-N/seq
-		set[s] = true
-		var ch, seq int64
-		fmt.Sscanf(s, "channel-%d/%d", &ch, &seq)
-		items = append(items, lib.Pair(lib.Z(ch), lib.Z(seq)))
+		if !keys[string(kv.K)] {
+			extra++
+		}
+	}
+	if extra > 0 {
+		items = append(items, lib.Pair("(-1)", lib.Z(int64(extra))))
 	}
 	return lib.List(items), set
 }
@@ -553,7 +608,7 @@ func (e *env) history(ops []opT) string {
 					c.EvmCall(B, user.Hex(), &token, nil, 1_000_000, approveData(lib.CrosschainPrecompile, big.NewInt(o.Amt)))
 				}
 				input, err := crosschaintypes.GetABI().Pack("crossChain", token, e.pxAddr, big.NewInt(o.Amt), big.NewInt(0),
-					fxtypes.MustStrToByte32(fmt.Sprintf("ibc/%d/px", o.Chan)), "")
+					fxtypes.MustStrToByte32(fmt.Sprintf("ibc/%d/px", e.chanNum[o.Chan])), "")
 				lib.Must(err)
 				pre := lib.CrosschainPrecompile
 				res := c.EvmCall(B, user.Hex(), &pre, value, 3_000_000, input)
@@ -565,7 +620,7 @@ func (e *env) history(ops []opT) string {
 						coin = sdk.NewCoin(tk.Base, sdkmath.NewInt(o.Amt))
 						if strings.HasPrefix(o.Denom, "alias") { // the bridge's SendToFx->IBC path (transferIBCHandler)
 							var err error
-							coin, err = c.App.EthKeeper.BaseCoinToIBCCoin(ctx, coin, user.Acc(), fmt.Sprintf("ibc/%d/px", o.Chan))
+							coin, err = c.App.EthKeeper.BaseCoinToIBCCoin(ctx, coin, user.Acc(), fmt.Sprintf("ibc/%d/px", e.chanNum[o.Chan]))
 							if err != nil {
 								return err
 							}
@@ -719,6 +774,11 @@ func (e *env) history(ops []opT) string {
 							ack := channeltypes.NewResultAcknowledgement([]byte{1})
 							if !o.OK {
 								ack = channeltypes.NewErrorAcknowledgement(fmt.Errorf("refused"))
+								if o.AckKind == "errempty" { // still an error acknowledgement: the oneof is Acknowledgement_Error
+									ack = channeltypes.Acknowledgement{Response: &channeltypes.Acknowledgement_Error{Error: ""}}
+								}
+							} else if o.AckKind == "result0" {
+								ack = channeltypes.NewResultAcknowledgement([]byte{0})
 							}
 							return stack.OnAcknowledgementPacket(ctx, sp.pkt, ack.Acknowledgement(), e.relayer)
 						}
@@ -754,7 +814,7 @@ func (e *env) history(ops []opT) string {
 								fmt.Sprintf("erc20 delta %s bank delta %s", ercDelta, bankDelta))
 						}
 					}
-					if _, set := e.relations(B); set[fmt.Sprintf("%s/%d", ch, o.Seq)] {
+					if _, set := e.relations(B, sent); set[key(o.Chan, o.Seq)] {
 						what := "timeout"
 						if isAck && o.OK {
 							what = "success"
@@ -786,7 +846,7 @@ func (e *env) history(ops []opT) string {
 		if o.Kind == "recv" {
 			e.rep.Count(fmt.Sprintf("recv:%s/%s/%s:ack=%d", o.Denom, o.Receiver, o.Memo, kind))
 		}
-		rel, _ := e.relations(B)
+		rel, _ := e.relations(B, sent)
 		items = append(items, lib.Pair(coq, fmt.Sprintf("mk_obs %d %s %s", kind, e.snapshot(B), rel)))
 	}
 	bz, _ := json.Marshal(ops)
